@@ -107,7 +107,8 @@ package mqtt
 // verif:def lastSent(cl *Client) Packet = cl.sentpk[old(cl.nsent)]
 // verif:def ifl(cl *Client) map = cl.State.Inflight.internal
 // verif:def hasT(cl *Client, id uint16, t byte) bool = has(cl.State.Inflight.internal, id) && cl.State.Inflight.internal[id].FixedHeader.Type == t
-// verif:def validCl(cl *Client) bool = cl != nil && cl.State.Inflight != nil && cl.State.Inflight.internal != nil && cl.ops != nil && cl.ops.hooks != nil
+// verif:def quotaInv(i *Inflight) bool = 0 <= i.receiveQuota && i.receiveQuota <= i.maximumReceiveQuota && 0 <= i.sendQuota && i.sendQuota <= i.maximumSendQuota
+// verif:def validCl(cl *Client) bool = cl != nil && cl.State.Inflight != nil && cl.State.Inflight.internal != nil && cl.ops != nil && cl.ops.hooks != nil && quotaInv(cl.State.Inflight)
 // verif:def validSrv(s *Server) bool = s != nil && s.Info != nil && s.hooks != nil && s.Options != nil && s.Options.Capabilities != nil && s.Options.Capabilities.Compatibilities != nil && 0 <= s.Options.Capabilities.MaximumMessageExpiryInterval && s.Options.Capabilities.MaximumMessageExpiryInterval <= 4611686018427387904 && cntOK(s)
 // counters stay far from the int64 limits (2^62 events do not happen)
 // verif:def cntOK(s *Server) bool = -4611686018427387904 <= s.Info.Inflight && s.Info.Inflight <= 4611686018427387904
@@ -225,3 +226,74 @@ package mqtt
 //@ ensures unbound-alias-yields-empty: topic == "" && !old(has(a.internal, id)) ==> r0 == ""
 //@ ensures disabled-passes-topic-through: a.maximum == 0 ==> r0 == topic && (has(a.internal, id) <==> old(has(a.internal, id)))
 //@ ensures other-bindings-kept: forall k uint16 :: k != id ==> (has(a.internal, k) <==> old(has(a.internal, k))) && a.internal[k] == old(a.internal[k])
+
+// ======================================================================================
+// PUBLISH from a client (C07, C08, C10, C11, C17, C19, C24, C25, C38)
+// ======================================================================================
+// abstract permission relation and topic-name validity (hooks are uninterpreted: assumption A-hooks)
+// verif:spec aclOK(ref, string, bool) bool
+// verif:spec validPub(string) bool
+// verif:spec validSub(string) bool
+// last reason code a client was disconnected with, if any
+// verif:ghost field disccode ref int
+// error returned by the publish hook chain during this handler run (nil if not called / no error)
+// verif:ghost var publishErr error
+
+// verif:func mqtt.IsValidFilter trusted
+//@ ensures forPublish ==> (r0 <==> validPub(filter))
+//@ ensures !forPublish ==> (r0 <==> validSub(filter))
+
+// verif:func mqtt.Hooks.OnACLCheck trusted
+//@ ensures r0 == aclOK(cl, topic, write)
+
+// assumption A-hooks: a publish hook may rewrite payload and properties, but returns the packet with the
+// same packet identifier, QoS, retain flag, topic name and alias it was given
+// verif:func mqtt.Hooks.OnPublish trusted
+//@ modifies publishErr
+//@ ensures publishErr == r1
+//@ ensures r1 == nil ==> r0.PacketID == pk.PacketID && r0.FixedHeader == pk.FixedHeader && r0.TopicName == pk.TopicName && r0.Ignore == pk.Ignore && r0.Expiry == pk.Expiry && r0.Created == pk.Created
+
+// verif:func mqtt.Server.DisconnectClient trusted
+//@ modifies cl.nsent, cl.sentpk, cl.stopped, cl.disccode
+//@ ensures cl.disccode == int(code.Code)
+//@ ensures !s.Options.Capabilities.Compatibilities.PassiveClientDisconnect ==> cl.stopped
+//@ ensures !s.Options.Capabilities.Compatibilities.PassiveClientDisconnect && code.Code >= 128 ==> r0 != nil
+//@ ensures cl.nsent >= old(cl.nsent) && cl.nsent <= old(cl.nsent) + 1
+//@ ensures forall k int :: 0 <= k && k < old(cl.nsent) ==> cl.sentpk[k] == old(cl.sentpk[k])
+
+// verif:func mqtt.Server.retainMessage trusted
+//@ modifies nretain, retainpk
+//@ ensures (s.Options.Capabilities.RetainAvailable == 0 || pk.Ignore) ==> nretain == old(nretain)
+//@ ensures !(s.Options.Capabilities.RetainAvailable == 0 || pk.Ignore) ==> nretain == old(nretain) + 1 && retainpk[old(nretain)] == pk
+
+// verif:func mqtt.Server.publishToSubscribers trusted
+//@ modifies nrouted, routedpk
+//@ ensures pk.Ignore ==> nrouted == old(nrouted)
+//@ ensures !pk.Ignore ==> nrouted == old(nrouted) + 1 && routedpk[old(nrouted)] == pk
+
+// verif:def validClPub(cl *Client) bool = validCl(cl) && cl.State.TopicAliases.Inbound != nil && cl.State.TopicAliases.Inbound.internal != nil
+// verif:def accepted(cl *Client, pk Packet) bool = (cl.Net.Inline || (validPub(pk.TopicName) && aclOK(cl, pk.TopicName, true))) && publishErr == nil
+
+// verif:func mqtt.Server.processPublish modifies=all
+//@ requires validClPub(cl) && validSrv(s) && publishErr == nil && s.Options.Capabilities.MaximumQos <= 2
+//@ requires !cl.stopped && !s.Options.Capabilities.Compatibilities.PassiveClientDisconnect
+// what PublishValidate and the decoder guarantee for a PUBLISH that reaches the handler; clients respect the advertised maximum QoS
+//@ requires pk.FixedHeader.Qos <= s.Options.Capabilities.MaximumQos && (pk.FixedHeader.Qos == 0 <==> pk.PacketID == 0) && !has(ifl(cl), 0) && !pk.Ignore
+//@ ensures C07-qos1-answered-with-puback: !cl.Net.Inline && pk.FixedHeader.Qos == 1 && !old(hasT(cl, pk.PacketID, Pubrec)) && publishErr == nil && r0 == nil && !cl.stopped ==> sentOne(cl) && lastSent(cl).FixedHeader.Type == Puback && lastSent(cl).PacketID == pk.PacketID
+//@ ensures C07-qos2-answered-with-pubrec: !cl.Net.Inline && pk.FixedHeader.Qos == 2 && publishErr == nil && r0 == nil && !cl.stopped ==> sentOne(cl) && lastSent(cl).FixedHeader.Type == Pubrec && lastSent(cl).PacketID == pk.PacketID
+//@ ensures C07-qos0-gets-no-ack: pk.FixedHeader.Qos == 0 && r0 == nil && !cl.stopped ==> sentNone(cl)
+//@ ensures C08-duplicate-not-forwarded: !cl.Net.Inline && old(hasT(cl, pk.PacketID, Pubrec)) && validPub(pk.TopicName) && aclOK(cl, pk.TopicName, true) && old(cl.State.Inflight.receiveQuota) > 0 ==> nrouted == old(nrouted) && nretain == old(nretain)
+//@ ensures C08-duplicate-answered-with-successful-pubrec: !cl.Net.Inline && pk.FixedHeader.Qos == 2 && old(hasT(cl, pk.PacketID, Pubrec)) && validPub(pk.TopicName) && aclOK(cl, pk.TopicName, true) && old(cl.State.Inflight.receiveQuota) > 0 && r0 == nil ==> sentOne(cl) && lastSent(cl).FixedHeader.Type == Pubrec && lastSent(cl).ReasonCode < 128
+//@ ensures C08-first-transmission-forwarded-once-and-recorded: !cl.Net.Inline && pk.FixedHeader.Qos == 2 && s.Options.Capabilities.MaximumQos == 2 && !old(has(ifl(cl), pk.PacketID)) && accepted(cl, pk) && old(cl.State.Inflight.receiveQuota) > 0 && r0 == nil && !(pk.Properties.TopicAliasFlag && pk.Properties.TopicAlias > 0) ==> nrouted == old(nrouted) + 1 && hasT(cl, pk.PacketID, Pubrec)
+//@ ensures C10-outbound-record-kept: !cl.Net.Inline && (old(hasT(cl, pk.PacketID, Publish)) || old(hasT(cl, pk.PacketID, Pubrel))) ==> has(ifl(cl), pk.PacketID) && ifl(cl)[pk.PacketID] == old(ifl(cl)[pk.PacketID])
+//@ ensures C09-other-ids-untouched: forall k uint16 :: k != pk.PacketID ==> (has(ifl(cl), k) <==> old(has(ifl(cl), k))) && ifl(cl)[k] == old(ifl(cl)[k])
+//@ ensures C11-receive-maximum-only-for-qos-flows: cl.disccode == 147 && old(cl.disccode) != 147 ==> pk.FixedHeader.Qos > 0 && old(cl.State.Inflight.receiveQuota) == 0
+//@ ensures C11-send-quota-untouched: cl.State.Inflight.sendQuota == old(cl.State.Inflight.sendQuota)
+//@ ensures C11-qos1-quota-balanced: pk.FixedHeader.Qos <= 1 && r0 == nil ==> cl.State.Inflight.receiveQuota == old(cl.State.Inflight.receiveQuota)
+//@ ensures C17-nothing-routed-without-write-permission: !cl.Net.Inline && !aclOK(cl, pk.TopicName, true) ==> nrouted == old(nrouted) && nretain == old(nretain)
+//@ ensures C17-nothing-routed-to-invalid-or-sys-topic: !cl.Net.Inline && !validPub(pk.TopicName) ==> nrouted == old(nrouted) && nretain == old(nretain)
+//@ ensures C19-hook-error-not-forwarded: publishErr != nil ==> nrouted == old(nrouted) && nretain == old(nretain)
+//@ ensures C24-unbound-alias-rejected: !cl.Net.Inline && pk.TopicName == "" && pk.Properties.TopicAliasFlag && pk.Properties.TopicAlias > 0 && !old(has(cl.State.TopicAliases.Inbound.internal, pk.Properties.TopicAlias)) ==> nrouted == old(nrouted) && nretain == old(nretain)
+//@ ensures C03-routed-at-most-once: nrouted <= old(nrouted) + 1 && nretain <= old(nretain) + 1
+//@ ensures C25-routed-expiry-is-smaller-nonzero-interval: nrouted == old(nrouted) + 1 && min0(s.Options.Capabilities.MaximumMessageExpiryInterval, int64(pk.Properties.MessageExpiryInterval)) > 0 && publishErr == nil ==> routedpk[old(nrouted)].Expiry == routedpk[old(nrouted)].Created + min0(s.Options.Capabilities.MaximumMessageExpiryInterval, int64(pk.Properties.MessageExpiryInterval))
+//@ ensures C38-counter-follows-table: r0 == nil ==> s.Info.Inflight - old(s.Info.Inflight) == len(ifl(cl)) - old(len(ifl(cl)))
